@@ -72,4 +72,7 @@ package deadline
 //@ func (t timer) Stop() (r bool)
 //@ func (t timer) Reset(dur time.Duration) (r bool)
 
+// ---- lock discipline (C19)
+//@ lockset C19: Deadline
+
 //@ property C09: New, Deadline.timeout, Deadline.Set, Deadline.Done, Deadline.Err, Deadline.Deadline, Deadline.fire
